@@ -370,6 +370,9 @@ pub fn stress_sources() -> Vec<(String, String)> {
     v.push(("lint-bait".into(), "let m = object begin\n  let cells = array(6, 0);\n  function get(r, c) -> this.cells[r * 3 + c];\n  function set(r, c, v) -> this.cells[r * 3 + c] <- v;\n  function +() -> 7;\n  function ==(a, b) -> a + b;\n  function -(a, b, c) -> a + b + c;\nend;\nm.set(1, 2, 5);\nprint(\"~ ~ ~ ~ ~\\n\", m.get(1, 2), m.get(0, 0), m.+(), m.==(1, 2), m.-(1, 2, 3));\nlet g0 = object begin function get() -> 1; function set(a) -> 3; end;\nprint(\"~ ~\\n\", g0.get(), g0.set(9));\nlet unused = 5;\nfunction never_called(a, b) -> a;\nfunction ignores(a, b) -> 1;\nlet x = 1; x <- x;\nif 1 == 1 then print(\"same\\n\") else print(\"~\", 1 / 0);\nif false then 1 / 0;\nwhile false do nosuch();\nbegin end;\nbegin begin end end;\nif (x <- 2) == 2 then print(\"assigned in condition\\n\");\nlet a_name_that_is_really_quite_long_and_goes_on_for_a_while_longer_than_any_sensible_line_width_would_allow_in_a_style_guide = 1;\nlet shadow = 1; begin let shadow = 2; shadow end;\nfunction shadow(shadow) -> shadow;\nprint(\"~ ~ ~\\n\", ignores(1, 2), shadow, shadow(3));\n".into()));
     // how many values a program creates: compound initializers of every kind, 0 to 3 elements
     v.push(("allocation-multiplicity".into(), "let v = object begin function who() -> 1; end;\nlet n = 0;\nwhile n < 4 do begin\n  let a = array(n, object begin end);\n  let b = array(n, object begin function m() -> 1; end);\n  let c = array(n, object extends v begin function k() -> 2; end);\n  let d = array(n, object extends 5 begin end);\n  let e = array(n, array(0, 0));\n  let f = array(n, array(2, n));\n  let g = array(n, object begin let s = n; end);\n  let h = array(n, v);\n  let i = array(n, null);\n  print(\"~ ~ ~ ~ ~ ~ ~ ~ ~\\n\", a, b, c, d, e, f, g, h, i);\n  n <- n + 1\nend;\nlet two = array(2, object begin function m() -> 1; end);\nprint(\"~\\n\", two);\n".into()));
+    // several hidden temporaries alive at once: compound array initializers nested three deep, inside methods, inside object
+    // literals that are arguments, with `let` inside the sizes
+    v.push(("nested-temporaries".into(), "function id(x) -> x;\nlet o = object begin\n  let base = 3;\n  function k(n) -> n * 2 + this.base;\n  function build(n) -> id(array(n, array(n, begin let t = array(n, this.k(n)); t[0] <- t[0] + 1; t end)));\n  function sizes() -> array(let a = 2, array(let b = a + 1, array(let c = b + 1, a * 100 + b * 10 + c)));\nend;\nprint(\"~\\n\", id(object begin function make() -> array(2, array(2, array(2, begin 7 end))); end).make());\nprint(\"~\\n\", o.build(2));\nprint(\"~\\n\", o.sizes());\nlet grid = array(2, array(3, array(2, object begin let v = 0; end)));\ngrid[1][2][0].v <- 5;\nprint(\"~\\n\", grid);\nprint(\"~\\n\", id(array(2, id(array(2, id(array(1, id(4))))))));\nfunction twice() -> array(2, array(2, twice2()));\nfunction twice2() -> array(1, array(1, 9));\nprint(\"~ ~\\n\", twice(), array(array(2, 1)[0] + 1, array(1, 1)[0]));\n".into()));
     // degenerate programs
     v.push(("empty-program".into(), "".into()));
     v.push(("only-comments".into(), "// nothing\n/* at all */\n".into()));
